@@ -78,6 +78,11 @@ def make_fault(ctx, ftype):
 		data = gzip.compress(b'>x\n' + b'ACGT' * 5000 + b'\n')
 		open(p, 'wb').write(data[:len(data) // 2])
 		return p
+	if ftype == 'truncated_gzip_hits':
+		p = os.path.join(d, 'trunc_hits.fa.gz')
+		data = gzip.compress((b'>x\n' + (b'ATACGTACGTAT' + b'CCGG') * 700 + b'\n') * 6)   # several records: the first ones parse before the error
+		open(p, 'wb').write(data[:len(data) - 30])
+		return p
 	if ftype == 'bad_utf8':
 		p = os.path.join(d, 'bad.fasta')
 		open(p, 'wb').write(b'>x\nACGT\xff\xfeACGT\n')
@@ -183,12 +188,20 @@ def run_case(case, ctx):
 		pos = fault['pos'] % n
 		paths[pos] = make_fault(ctx, fault['type'])
 	files = SequenceFile.from_paths(paths, 'fasta', 'auto')
+	if case.get('poison'):
+		# an earlier call in the same process that failed part-way must leave no trace
+		pp = make_fault(ctx, 'truncated_gzip_hits')
+		for kw_p in (dict(concurrency=None), dict(concurrency='threads', max_workers=1)):
+			try:
+				calc_file_signatures(kspec, SequenceFile.from_paths([paths[0], pp] if kw_p.get('concurrency') else [pp], 'fasta', 'auto'), **kw_p)
+			except Exception:
+				pass
 	# single-file results (oracle); cached for the healthy files
 	singles = []
 	expect_fail = False
 	for i, f in enumerate(files):
 		ck = ('c13sig', str(f.path), k)
-		if ck in ctx.cache:
+		if ck in ctx.cache and not case.get('poison'):
 			singles.append(ctx.cache[ck])
 			continue
 		try:
@@ -205,6 +218,21 @@ def run_case(case, ctx):
 			for j in range(i + 1, n):
 				if np.array_equal(singles[i], singles[j]):
 					raise AssertionError('harness: file signatures not pairwise distinct')
+		# independent oracle for the single-file results themselves (definitional R-KMER signature of the file content)
+		from vlib.refmodel import kmer as RK
+		for i, pth in enumerate(paths):
+			ck = ('c13ref', pth, k)
+			if ck not in ctx.cache:
+				data = open(pth, 'rb').read()
+				if data[:2] == b'\x1f\x8b':
+					data = gzip.decompress(data)
+				if len(data) > 20000:
+					ctx.cache[ck] = None
+				else:
+					ctx.cache[ck] = RK.ref_signature([b''.join(rec.split(b'\n')[1:]) for rec in data.split(b'>')[1:]], k, b'AT')
+			if ctx.cache[ck] is not None and [int(v) for v in singles[i]] != ctx.cache[ck]:
+				raise Violation('single_file_wrong', f'calc_file_signature(file {i}) differs from the definitional signature of its content '
+				                f'(extra {sorted(set(int(v) for v in singles[i]) - set(ctx.cache[ck]))[:5]})', case)
 
 	mode = case['mode']
 	ex = None
@@ -226,7 +254,7 @@ def run_case(case, ctx):
 		raise ValueError(mode)
 	try:
 		try:
-			res = calc_file_signatures(kspec, files, progress=None, **kw)
+			res = calc_file_signatures(kspec, files, progress=case.get('progress'), **kw)
 			err = None
 		except Exception as e:
 			res, err = None, e
@@ -258,7 +286,7 @@ def run_case(case, ctx):
 				where = [j for j in range(n) if isinstance(r, np.ndarray) and np.array_equal(r, singles[j])]
 				order = f', completion order {ex.completed_order}' if isinstance(ex, OrderedExecutor) else ''
 				raise Violation('misplaced', f'result[{i}] is not the signature of file {i} (it equals that of file(s) {where}); mode {mode}{order}', case)
-	classes = ['mode=' + mode, f'n={n}']
+	classes = ['mode=' + mode, f'n={n}'] + (['after_failed_call'] if case.get('poison') else [])
 	nontrivial = False
 	if mode == 'ordered':
 		if ex.uncontrolled:
@@ -294,6 +322,8 @@ def gen_case(draw, tier):
 		'skew': draw(st.booleans()) if mode in ('threads', 'processes', 'cli_create') else False,
 		'max_workers': draw(st.sampled_from([2, 1, 3, 8, 16] + ([None] if mode == 'cli_create' else []))),
 		'listfile': draw(st.booleans()),
+		'progress': draw(st.sampled_from([None, None, 'click', False])),
+		'poison': draw(st.sampled_from([False, False, True])),
 		'fault': fault,
 	}
 
